@@ -308,12 +308,14 @@ def per_program(p):
 def plan(tier, seed):
     n = 60 if tier == "quick" else 1200
     depth = 4 if tier == "quick" else 5
-    return [{"seed": seed * 1000 + k, "n": n, "depth": depth} for k in range(16)]
+    shards = [{"seed": seed * 1000 + k, "n": n, "depth": depth} for k in range(16)]
+    shards += [{"seed": seed * 1000 + 70 + k, "n": n, "depth": 3, "repeated": True} for k in range(2)]
+    return shards
 
 
 def run_shard(shard, col):
     progs.drive_programs(col, seed=shard["seed"], n=shard["n"],
-                         spec_strategy=U.specs(max_depth=shard["depth"], mods=3, adversarial=True),
+                         spec_strategy=U.repeated_generic_specs() if shard.get("repeated") else U.specs(max_depth=shard["depth"], mods=3, adversarial=True),
                          per_program=per_program)
 
 
